@@ -108,8 +108,9 @@ def main():
 
 
 def finish(meta, name, src):
-    os.makedirs("/tmp/mut/results", exist_ok=True)
-    json.dump(meta, open(f"/tmp/mut/results/{name}.json", "w"), indent=1)
+    res = "/tmp/mut/results-final" if "--final" in sys.argv else "/tmp/mut/results"
+    os.makedirs(res, exist_ok=True)
+    json.dump(meta, open(f"{res}/{name}.json", "w"), indent=1)
     print(name, "confirmed" if meta["confirmed"] else "NOT CONFIRMED", "detected_by=", meta.get("detected_by"))
 
 
